@@ -1715,4 +1715,197 @@ theorem tokenise_relative (t : Tokens) (b : Bool) (h : WF t) (hc : t.cycle.isSom
   exact this
 
 
+/-! ## the relative part is read the same way whatever precedes it -/
+
+/-- put `~user/workflow:sel` in front of task-like tokens -/
+def setHead (u w ws : Option Str) (x : Tokens) : Tokens := { x with user := u, workflow := w, workflowSel := ws }
+
+theorem parseJob_frame (u w ws : Option Str) (t0 : Tokens) (r : Str) :
+    parseJob (setHead u w ws t0) r = (parseJob t0 r).map (setHead u w ws) := by
+  simp only [parseJob]
+  by_cases h : (spanP jobCh r).1.isEmpty = true
+  · simp [h]
+  · simp only [h, Bool.false_eq_true, if_false]
+    cases optSel jobSelCh (spanP jobCh r).2 with
+    | none => rfl
+    | some p =>
+      obtain ⟨sel, rest⟩ := p
+      cases rest with
+      | nil => simp [setHead]
+      | cons _ _ => rfl
+
+theorem parseTask_frame (u w ws : Option Str) (t0 : Tokens) (r : Str) :
+    parseTask (setHead u w ws t0) r = (parseTask t0 r).map (setHead u w ws) := by
+  simp only [parseTask]
+  by_cases h : (spanP taskCh r).1.isEmpty = true
+  · simp [h]
+  · simp only [h, Bool.false_eq_true, if_false]
+    cases optSel taskSelCh (spanP taskCh r).2 with
+    | none => rfl
+    | some p =>
+      obtain ⟨sel, rest⟩ := p
+      cases rest with
+      | nil => simp [setHead]
+      | cons a rest' =>
+        by_cases ha : a = '/'
+        · subst ha
+          cases rest' with
+          | nil => simp [setHead]
+          | cons b r'' =>
+            have := parseJob_frame u w ws { t0 with task := some (spanP taskCh r).1, taskSel := sel } (b :: r'')
+            simp only [setHead] at this ⊢
+            exact this
+        · have e1 : ∀ (f g : Tokens → Option Tokens) (k : Tokens) (h : Tokens → Str → Option Tokens),
+              (match (some (sel, a :: rest') : Option (Option Str × Str)) with
+                | some (s, []) => f k
+                | some (s, ['/']) => g k
+                | some (s, '/' :: r') => h k r'
+                | _ => none) = none := by
+            intro f g k h
+            split <;> simp_all
+          simp_all
+
+theorem parseRel_frame (u w ws : Option Str) (t0 : Tokens) (r : Str) :
+    parseRel (setHead u w ws t0) r = (parseRel t0 r).map (setHead u w ws) := by
+  simp only [parseRel]
+  cases cycleSeg (spanP (fun x => x != '/') r).1 with
+  | none => rfl
+  | some p =>
+    obtain ⟨c, sel⟩ := p
+    simp only
+    cases (spanP (fun x => x != '/') r).2 with
+    | nil => simp [setHead]
+    | cons a rest =>
+      cases rest with
+      | nil => simp [setHead]
+      | cons b r' =>
+        have := parseTask_frame u w ws { t0 with cycle := some c, cycleSel := sel } (b :: r')
+        simp only [setHead] at this ⊢
+        exact this
+
+theorem parseRel_head_none {r : Str} {x : Tokens} (h : parseRel {} r = some x) :
+    x.user = none ∧ x.workflow = none ∧ x.workflowSel = none := by
+  have := parseRel_frame none none none {} r
+  rw [show setHead none none none ({} : Tokens) = {} from rfl, h] at this
+  simp only [Option.map_some, Option.some.injEq] at this
+  rw [this]
+  simp [setHead]
+
+theorem taskPart_dictStrip_setHead (u w ws : Option Str) (x : Tokens)
+    (hx : x.user = none ∧ x.workflow = none ∧ x.workflowSel = none) :
+    (dictStrip (setHead u w ws x)).taskPart = dictStrip x := by
+  obtain ⟨h1, h2, h3⟩ := hx
+  simp [dictStrip, setHead, Tokens.taskPart, h1, h2, h3, stripOpt]
+
+/-- `universal` on the canonical string of tokens with a workflow and a cycle hands the relative part,
+unchanged, to `parseRel` -/
+theorem universal_canonical_rel (t : Tokens) (b : Bool) (h : WF t) (w c : Str) (hw : t.workflow = some w)
+    (hc : t.cycle = some c) :
+    universal (canonical t b) = parseRel (setHead t.user (some w) (keepSel b t.workflowSel) {}) (renderRel t b) := by
+  have hws := fieldP_sel h.workflowSel
+  have hshape := (h.workflow w hw).1
+  have hch := chomp_of_not_mem _ (canonical_noNl h b)
+  obtain ⟨a, r, hr⟩ : ∃ a r, renderRel t b = a :: r := by
+    have hcne := stripped_ne_nil (h.cycle c hc).2
+    cases c with
+    | nil => exact absurd rfl hcne
+    | cons a c' => exact ⟨a, c' ++ (selSuffix b t.cycleSel ++ renderTask t b), by simp [renderRel, hc]⟩
+  have hpw : ∀ u : Option Str, parseWf { user := u } (renderWf t b)
+      = parseRel (setHead u (some w) (keepSel b t.workflowSel) {}) (renderRel t b) := by
+    intro u
+    simp only [renderWf, hw, hc, Option.isSome_some, if_true, hr]
+    rw [parseWf_rel _ w b t.workflowSel a r hshape hws]
+    rfl
+  obtain ⟨a0, r0, hr0, ha0⟩ := renderWf_head h b w hw
+  cases hu : t.user with
+  | none =>
+    have hcan : canonical t b = a0 :: r0 := by simp [canonical, hu, hw, hr0]
+    have hne : a0 ≠ '~' := by intro e; subst e; revert ha0; decide
+    rw [universal_noUser _ a0 r0 (by rw [hch, hcan]) hne, ← hr0]
+    exact hpw none
+  | some u =>
+    obtain ⟨hune, hua, _⟩ := h.user u hu
+    unfold universal
+    rw [hch]
+    have hsp := spanP_append userCh u ('/' :: a0 :: r0) hua (Or.inr ⟨'/', _, rfl, by decide⟩)
+    simp only [canonical, hu, hw, Option.isSome_some, if_true, hr0, List.cons_append, hsp, isEmpty_false_of_ne hune]
+    rw [← hr0]
+    exact hpw (some u)
+
+theorem relativeId_canonical_none (t : Tokens) (b : Bool) (h : WF t) (hx : t.user.isSome ∨ t.workflow.isSome) :
+    relativeId (canonical t b) = none := by
+  have hch := chomp_of_not_mem _ (canonical_noNl h b)
+  unfold relativeId
+  rw [hch]
+  cases hu : t.user with
+  | some u => simp [canonical, hu]
+  | none =>
+    cases hw : t.workflow with
+    | none => simp [hu, hw] at hx
+    | some w =>
+      obtain ⟨a0, r0, hr0, ha0⟩ := renderWf_head h b w hw
+      have hne : a0 ≠ '/' := by intro e; subst e; revert ha0; decide
+      simp only [canonical, hu, hw, Option.isSome_some, if_true, hr0]
+      split
+      · rename_i heq; simp at heq; exact absurd heq.1 hne
+      · rfl
+
+/-- Relative and absolute forms agree on the task part, for all valid tokens (also when the cycle text is
+ambiguous: both forms then misread it in the same way). -/
+theorem tokenise_relative_agree (t : Tokens) (b : Bool) (h : WF t) (hc : t.cycle.isSome) :
+    tokenise (renderRel t b) true = (tokenise (canonical t b) false).map Tokens.taskPart := by
+  obtain ⟨c, hc'⟩ := Option.isSome_iff_exists.mp hc
+  -- the relative form
+  have hrel : tokenise (renderRel t b) true = (parseRel {} (renderRel t b)).map dictStrip := by
+    rw [tokenise_relative_prefix _ (renderRel_notSS h b)]
+    have hnl : '\n' ∉ '/' :: '/' :: renderRel t b := by
+      simp only [List.mem_cons, not_or]
+      exact ⟨by decide, by decide, renderRel_noNl h b⟩
+    have hch := chomp_of_not_mem _ hnl
+    have hu : universal ('/' :: '/' :: renderRel t b) = none := by
+      rw [universal_noUser _ '/' ('/' :: renderRel t b) hch (by decide)]
+      have : wfCh '/' = false := by decide
+      simp [parseWf, this]
+    unfold tokenise
+    simp only [Bool.false_and, Bool.false_eq_true, if_false, hu]
+    unfold relativeId
+    rw [hch]
+    cases hp : parseRel {} (renderRel t b) <;> simp [hp]
+  rw [hrel]
+  by_cases hx : t.user.isSome ∨ t.workflow.isSome
+  · have hw : ∃ w, t.workflow = some w := by
+      cases hw : t.workflow with
+      | some w => exact ⟨w, rfl⟩
+      | none =>
+        rcases hx with hx | hx
+        · have := h.user_cycle_wf hx hc; simp [hw] at this
+        · simp [hw] at hx
+    obtain ⟨w, hw⟩ := hw
+    have habs : tokenise (canonical t b) false
+        = ((parseRel {} (renderRel t b)).map (setHead t.user (some w) (keepSel b t.workflowSel))).map dictStrip := by
+      unfold tokenise
+      simp only [Bool.false_and, Bool.false_eq_true, if_false]
+      rw [universal_canonical_rel t b h w c hw hc', parseRel_frame, relativeId_canonical_none t b h hx]
+      cases parseRel {} (renderRel t b) <;> rfl
+    rw [habs]
+    cases hp : parseRel {} (renderRel t b) with
+    | none => rfl
+    | some x =>
+      simp only [Option.map_some]
+      rw [taskPart_dictStrip_setHead _ _ _ x (parseRel_head_none hp)]
+  · have hu : t.user = none := by cases hu : t.user <;> simp_all
+    have hw : t.workflow = none := by cases hw : t.workflow <;> simp_all
+    have hcan : canonical t b = '/' :: '/' :: renderRel t b := by simp [canonical, hu, hw]
+    rw [hcan, ← tokenise_relative_prefix _ (renderRel_notSS h b), hrel]
+    cases hp : parseRel {} (renderRel t b) with
+    | none => rfl
+    | some x =>
+      simp only [Option.map_some]
+      have := taskPart_dictStrip_setHead none none none x (parseRel_head_none hp)
+      rw [show setHead none none none x = x by
+        obtain ⟨h1, h2, h3⟩ := parseRel_head_none hp
+        cases x; simp_all [setHead]] at this
+      rw [this]
+
+
 end CylcModel.Ident
